@@ -32,6 +32,7 @@ from ..core import Ctx, ExtractError
 
 ID = "C09"
 LEVEL = "proof"
+STRENGTH = "partial"     # clauses false of the code (F10, F13) are negated, "never crashes" and the staged upper bounds outside the pause rest on oracle/tie
 ENGINES = ["lean-model", "pyextract", "kopfsim"]
 TIE = ("T: stage chain of stop_daemons + phase list of stop_daemon (AST → Lean, re-proved equal to the model); "
        "S: every process_spawning_cause pass and every daemon-killer stop_daemon run of whole-operator simulations "
@@ -40,9 +41,13 @@ LEVEL_TEXT = (
     "Lean theorems for ALL label lists (cycles with any matching/marked/paused/DELETED inputs and any observation of the task, "
     "daemon-killer stages, the instance ending at any moment, any time steps, any backoff/timeout): at_most_one + "
     "spawn_only_when_none, started_on_match, self_exit_is_remembered + no_restart_after_self_exit, staged + staged_monotone, "
-    "stop_reasons. paused_daemon_is_cancelled (+ next_round_within_period): along EVERY run in which the killer's timers fire "
-    "when due (`Dutiful`, Model file), a daemon that still runs with a known memory after round + backoff HAS BEEN cancelled, "
-    "within backoff + one killer period of the flag, whoever set it; that the re-sweep is unconditional and periodic is a tie "
+    "stop_reasons. The automaton is TIMED (`tickOk`, Model file: asyncio fires due timers — the clock cannot pass a round of the "
+    "killer's pausing loop that has not swept a listed daemon, nor a stage deadline of a running stop_daemon coroutine); "
+    "paused_daemon_is_cancelled / paused_daemon_is_abandoned are INVARIANTS of every reachable state (no hypothesis about the run): "
+    "while paused, a running daemon of a known memory has been cancelled (if it has a cancellation_timeout) by the first round after "
+    "it was listed + backoff, abandoned by + timeout, whoever set its flag; never_cancelled_without_timeout says what the default "
+    "cancellation_timeout=None does NOT get (only flag + abandonment); first_round_within_period bounds the round. That the re-sweep is "
+    "unconditional and periodic is a tie "
     "obligation (AST + every observed round), not a property theorem. 'Stopping never stalls': `progress` (_timer, <= 6 steps) and "
     "`daemon_progress` (_daemon, <= 3 steps) for the micro-step models of the tree as it is (idle loop guarded by the stopper since "
     "6ccf081, `await asyncio.sleep(0)` at the top of both retry loops since b04c26c; both variants tied to the AST), from every "
@@ -52,12 +57,18 @@ LEVEL_TEXT = (
     "before 6ccf081); the corpus cases F1/F12*.json are passing regressions. 'Never crashes' has NO theorem: oracle on every history (no exception out of the "
     "killer / processing / operator, operator alive) + tie `killer_iterates_snapshots` + corpus regressions (F11 fixed by 06bf1c1). "
     "'Asked to stop when the object disappears' is false for DELETED events without deletionTimestamp: negation proved "
-    "(gone_unmarked_not_stopped, orphan_never_stopped, gone_unmarked_witness) and reproduced (finding F10, open). Runtime residue the "
+    "(gone_unmarked_not_stopped, orphan_never_stopped, gone_unmarked_witness) and reproduced (finding F10, open). 'Asked to stop when the "
+    "operator exits' is false for what a worker (re)spawns during the depletion, after the killer's only exit sweep: negation proved "
+    "(respawned_while_exiting, no_killer_after_final_sweep, exit_respawn_witness) and reproduced (finding F13, open). NOT theorems "
+    "(oracle upper-bound clauses O8/O9 + ties only): that cancellation/abandonment DO happen on deletion / mismatch (cycles → delays → "
+    "touch → next cycle) and on exit. Runtime residue the "
     "model cannot exhibit: real threads of sync daemons, CPython's scheduling of same-instant callbacks.")
 THEOREMS = [("Kopf.Props.C09", "Kopf.C09." + n) for n in [
     "at_most_one", "spawn_only_when_none", "started_on_match", "self_exit_is_remembered", "no_restart_after_self_exit",
-    "staged", "staged_monotone", "stop_reasons", "next_round_within_period", "paused_daemon_is_cancelled",
+    "staged", "staged_monotone", "stop_reasons",
+    "first_round_within_period", "paused_daemon_is_cancelled", "paused_daemon_is_abandoned", "never_cancelled_without_timeout",
     "gone_unmarked_not_stopped", "orphan_never_stopped", "gone_unmarked_witness",
+    "respawned_while_exiting", "no_killer_after_final_sweep", "exit_respawn_witness",
     "progress", "daemon_progress",
     "nonyielding_retry_spins", "nonyielding_retry_witness", "daemon_nonyielding_retry_spins",
     "idle_only_spins", "idle_only_spins_witness"]]
@@ -82,8 +93,9 @@ ASSUMPTIONS = ["settings.background.instant_exit_timeout is None (the default): 
                "no event for a uid follows its DELETED event (Kubernetes API guarantee)",
                "whether a handler run yields to the event loop is an input of the micro-step models (`Outcome.yields`), not an "
                "assumption; timers have idle > 0 (an `idle <= 0` makes the after-run idle loop spin)",
-               "`Dutiful` (urgency of the killer's own timers: the round at r and the cancel stage at r + backoff happen before the "
-               "clock passes them) is a hypothesis of paused_daemon_is_cancelled: asyncio fires due timers; CPU starvation is out of scope"]
+               "urgency of the killer's own timers is part of the model (`tickOk`): asyncio fires due timers; CPU starvation and the "
+               "order of same-instant callbacks are out of scope (a daemon listed at the very instant of a round counts from the next)",
+               "0 <= cancellation_backoff, 0 <= cancellation_timeout (hypotheses of the two pause invariants)"]
 
 F1_SIG = {"site": "daemons._timer", "shape": "idle-only timer spins without suspending after its stopper is set"}
 F13_SIG = {"site": "processing.process_spawning_cause",
@@ -1090,6 +1102,29 @@ def tie_requests(sc: dict, tr: dict) -> tuple[list, list, list, dict]:
         impls.append([d["sid"] in started for d in clear])
         where.append({"kind": "round", "t": sw["t"], "listed": clear})
         stats["rounds"] += 1
+    # ---- the timed part: the first sweep of a daemon listed while paused comes at a round, not later than its due round --
+    pauses: list[tuple[int, int, float]] = []      # (inc, p in ticks, until seq)
+    open_p: dict[int, list] = {}
+    for x in ev:
+        if x["e"] == "paused":
+            open_p[x["target"]] = [x["target"], _ticks(x["t"]), len(ev)]
+            pauses.append(open_p[x["target"]])
+        elif x["e"] == "resumed" and x["target"] in open_p:
+            open_p.pop(x["target"])[2] = x["seq"]
+    for inc, pt, useq in pauses:
+        stop_seq = min([x["seq"] for x in ev if x["e"] in ("killer-error",) and x["inc"] == inc] + [useq])
+        for i in inst.values():
+            if i["inc"] != inc or i["seq_spawn"] > stop_seq:
+                continue
+            ks = [x for x in ev if x["e"] == "k0" and x["sid"] == i["sid"] and x["reason"] == ["OPERATOR_PAUSING"]
+                  and x["lt"] >= pt and x["seq"] < stop_seq]
+            if not ks:
+                continue
+            since = _ticks(i["t_spawn"])
+            reqs.append(["C09.due", {"p": pt, "since": since, "t": ks[0]["lt"]}])
+            impls.append({"round": True, "byDue": True})
+            where.append({"kind": "due", "sid": i["sid"], "pause": pt, "first_sweep": ks[0]["lt"], "since": since})
+            stats["dues"] = stats.get("dues", 0) + 1
     # ---- instance ends --------------------------------------------------------------------------------
     for i in inst.values():
         if i["seq_end"] is None or i["muted"] or i["own_exit"] is None:
@@ -1802,6 +1837,8 @@ def _shape(req: list, impl: Any) -> tuple[Any, bool]:
     if req[0] == "C09.kplan":
         r = req[1]
         return ["killer", r["backoff"] is not None, r["timeout"] is not None, r["reason"], r["done"], [x[1] for x in impl]], True
+    if req[0] == "C09.due":
+        return ["due", (req[1]["t"] - req[1]["p"]) // 64, req[1]["since"] >= req[1]["p"]], True
     if req[0] == "C09.sweep":
         return ["round", sorted({tuple(d["reasons"]) for d in req[1]}), sorted(set(impl))], True
     return ["exit", req[1]["reasons"], impl["forever"]], True
@@ -1883,8 +1920,8 @@ def _run_batch(ctx: Ctx, scenarios: list[dict], names: list[str | None], oracle_
             rq, im, wh, st = tie_requests(sc, tr)
             for g in st["log_gaps"][:3]:
                 ctx.tie_fail("a stopper changed without a logged event (instrumentation gap)", {"scenario": sc, **g})
-            for key in ("cycles", "skipped_concurrent", "killer", "killer_incomplete", "exits", "rounds"):
-                ctx.count("tie_units", key, st[key])
+            for key in ("cycles", "skipped_concurrent", "killer", "killer_incomplete", "exits", "rounds", "dues"):
+                ctx.count("tie_units", key, st.get(key, 0))
             for r_, i_, w_ in zip(rq, im, wh):
                 reqs.append(r_)
                 impls.append(i_)
@@ -1907,6 +1944,8 @@ def _run_batch(ctx: Ctx, scenarios: list[dict], names: list[str | None], oracle_
                          "known": all(h["known"] for h in m["handlers"]) if m["handlers"] else impl["known"]}
                 if impl["known"] is None:
                     model["known"] = None
+            elif req[0] == "C09.due":
+                model = {"round": m["round"], "byDue": m["byDue"]}
             else:
                 model = m
             key, busy = _shape(req, impl)
